@@ -174,7 +174,12 @@ class Builder(NullCell):
         if isinstance(address, str):
             address = Address(address)
 
-        self.store_bits('100')  # addr_std$10 + maybe anycast = 0
+        if getattr(address, 'anycast', None) is not None:
+            # addr_std$10 anycast:(Maybe Anycast) with anycast_info$_ depth:(#<= 30) rewrite_pfx:(bits depth)
+            self.store_bits('101')
+            self.store_uint(address.anycast.depth, 5).store_uint(address.anycast.rewrite_pfx, address.anycast.depth)
+        else:
+            self.store_bits('100')  # addr_std$10 + maybe anycast = 0
 
         return self.store_int(address.wc, 8).store_bytes(address.hash_part)
 
